@@ -648,6 +648,14 @@ class SymbolsLoad(VC):
 
         I.specs["_RecMap.__setitem__"] = rec_set
 
+        # _define_ref spells a name that changes under NFKC normalisation by the hex digits of its encoding: library functions
+        import unicodedata
+        from pyvc.values import fresh, BoundMethod
+        I.specs[("fn", id(unicodedata.normalize))] = lambda I_, st, args, kwargs, node: [(st, fresh("nfkc", "str"))]
+        I.specs["str.encode"] = lambda I_, st, args, kwargs, node: [(st, fresh("encoded", "obj"))]
+        I.specs["getattr_obj"] = lambda I_, st, args, kwargs, node: [(st, BoundMethod(args[0], args[1]))] if args[1] == "hex" else None
+        I.specs["method_obj"] = lambda I_, st, args, kwargs, node: [(st, fresh("hex", "str"))] if args[1] == "hex" else None
+
     def setup(self, I, st):
         self.vname = sym("name", "str")
         self.refs = A.obj(st, _RecMap, "refs", fields={"writes": ()})
@@ -1022,6 +1030,10 @@ def yield_key(res):
     return ",".join(sorted({f"{a}:{b}" for a, b in TAG.findall(res.detail or "")})) or "?"
 
 
+def _feasible(sc):
+    return check_sat(list(sc.pc), 20000, 0, use_cvc5=False).status != "unsat"
+
+
 def _with_key(t, k):
     t.finding_key = k
     return t
@@ -1130,6 +1142,10 @@ TASKS = (
     + [FnTask("C32", "C32.native.undeclared", native_standin("undeclared"), "bounded", native_undeclared),
        FnTask("C32", "C32.native.refs", native_standin("refs"), "bounded", native_refs)]
 )
+
+for _t in TASKS:
+    if isinstance(_t, EmitTask) and _t.path_filter is None:
+        _t.path_filter = _feasible
 
 META = {
     "level": "other",
